@@ -69,7 +69,7 @@ func levelAModels(thorough bool) []sysCfg {
 			{Name: "1c-1i-poll", MaxCtr: 1, Cap: 1, Types: "A", Prios: "1", Events: "wait createquota crash slow-poll-mine slow-poll-queued slow-poll-missing", Budget: 2, Depth: 16},
 			{Name: "2c-2i-poll3", MaxCtr: 2, Cap: 2, Types: "A", Prios: "12", Events: "createquota slow-poll-queued slow-poll-mine", Budget: 2, Depth: 18, PollTicks: 3},
 			{Name: "1c-1i-hold2", MaxCtr: 1, Cap: 1, Types: "A", Prios: "1", Events: "prio0 prio1 cancel linger killfail hang restart slow-kill slow-list", Budget: 2, Depth: 18},
-			{Name: "2c-1i-requeue2", MaxCtr: 2, Cap: 1, Types: "A", Prios: "12", Events: "cancel prio0 prio1 linger killfail", Budget: 2, Depth: 12},
+			{Name: "2c-1i-requeue2", MaxCtr: 2, Cap: 1, Types: "A", Prios: "12", Events: "cancel linger killfail", Budget: 2, Depth: 12},
 		}
 	}
 	return ms
